@@ -10,8 +10,8 @@ for f in sorted(glob.glob('/tmp/seed/reverify/summary_*.txt')):
         rows[sid] = line[len(sid):].strip()       # later files / lines win (re-runs)
 head = subprocess.check_output(['git', '-C', '/repo', 'rev-parse', '--short', 'HEAD']).decode().strip()
 out = ['# Re-verification of every stored seeded change', '',
-       'Every directory under `seeded/` was re-verified with `tools/reverify.sh` against /repo at %s and the' % head,
-       'final checks: the patch is applied to a scratch worktree at that commit (reduced context allowed), the',
+       'Every directory under `seeded/` was re-verified with `tools/reverify.sh` against the final checks and the final /repo (all seeds at e3558d3 after round 4; the seeds of the properties touched by round 4b - C04 C08 C09 C13 C17 C18 C19 - and the round-4b seeds again at %s):' % head,
+       'the patch is applied to a scratch worktree at that commit (reduced context allowed), the',
        'demonstration must pass on the clean tree (0) and fail with the change (non-zero), and the quick tier of',
        'the check(s) recorded in `meta.json` (`caught_by`, else the property\'s own check) must exit 1 with at least',
        'one replay-confirmed VIOLATION line.', '',
